@@ -40,6 +40,9 @@ type Case struct {
 	Store    string   `json:"store,omitempty"`    // kind of content filesystem (store_test.go); "" = map
 	Late     bool     `json:"late,omitempty"`     // the user templates are written after markdown.New
 	Strict   bool     `json:"strict,omitempty"`
+	// Files are unrelated files of the content filesystem (theme.yml, data/*.yml: vuego loads them as
+	// template data). Kinds doc and override. No Files = nil content FS (doc) / only the templates.
+	Files map[string]string `json:"files,omitempty"`
 	// kind "session": Docs are rendered one after the other on ONE Markdown instance, Via[i] says
 	// how ("bytes" = RenderBytes, "load" = Load + Render); LoadFirst loads all "load" documents
 	// before anything is rendered.
@@ -49,6 +52,15 @@ type Case struct {
 	// kind "front": the file is "---\n" + FM + "---\n" + Src when HasFM, else Src (front_test.go)
 	HasFM bool   `json:"has_fm,omitempty"`
 	FM    string `json:"fm,omitempty"`
+}
+
+// source returns the document of a doc case: Raw carries it when it is not valid UTF-8 (JSON strings
+// cannot).
+func (c Case) source() []byte {
+	if c.Raw != nil && c.Src == "" {
+		return c.Raw
+	}
+	return []byte(c.Src)
 }
 
 var known = kf.Load()
@@ -95,8 +107,18 @@ func renderVuegoStore(src []byte, files map[string]string, store string, late bo
 	return b.String(), err
 }
 
-func renderVuegoLoad(src []byte) (string, error) {
-	md := markdown.New(fstest.MapFS{"doc.md": &fstest.MapFile{Data: src, Mode: 0o644}})
+func renderVuegoLoad(src []byte) (string, error) { return renderVuegoLoadFiles(src, nil) }
+
+func renderVuegoLoadFiles(src []byte, files map[string]string) (string, error) {
+	m := fstest.MapFS{"doc.md": &fstest.MapFile{Data: src, Mode: 0o644}}
+	for k, v := range files {
+		m[k] = &fstest.MapFile{Data: []byte(v), Mode: 0o644}
+	}
+	md := markdown.New(m)
+	return loadAndRender(md)
+}
+
+func loadAndRender(md *markdown.Markdown) (string, error) {
 	doc, err := md.Load("doc.md")
 	if err != nil {
 		return "", fmt.Errorf("Load: %w", err)
@@ -158,14 +180,26 @@ func describe(src, ref, got string) string {
 }
 
 func checkDoc(c Case, st *stats) error {
-	src := []byte(c.Src)
+	src := c.source()
+	shown := string(src)
 	ref, err := refHTML(src)
 	if err != nil {
 		return nil // the reference cannot render it: nothing to compare (never observed)
 	}
-	got, err := renderVuego(src, nil)
+	// unrelated files in the content filesystem (configuration data) must not change the rendering
+	var files map[string]string
+	if c.Files != nil {
+		files = map[string]string{}
+		for k, v := range c.Files {
+			if strings.HasPrefix(k, "markdown/") {
+				return nil // user templates are the override kind's subject (hand-edited replay)
+			}
+			files[k] = v
+		}
+	}
+	got, err := renderVuego(src, files)
 	if err != nil {
-		return fmt.Errorf("rendering failed: RenderBytes returned %v%s", err, describe(c.Src, ref, got))
+		return fmt.Errorf("rendering failed: RenderBytes returned %v (content FS files: %v)%s", err, sortedKeys(files), describe(shown, ref, got))
 	}
 	if st.skip(c, analyse(src)) {
 		return nil
@@ -173,23 +207,114 @@ func checkDoc(c Case, st *stats) error {
 	t := tolerances(c)
 	d, tolerated := compare(ref, got, t)
 	if d != "" {
-		return fmt.Errorf("%s%s", d, describe(c.Src, ref, got))
+		if len(files) > 0 {
+			d += fmt.Sprintf(" (content FS holds %v: %q)", sortedKeys(files), clip(fmt.Sprint(files), 300))
+		}
+		return fmt.Errorf("%s%s", d, describe(shown, ref, got))
 	}
 	st.add(tolerated)
 	// the same through Load + Render (Load extracts front matter from a file that starts with
 	// "---", which is documented; such documents are only rendered through RenderBytes)
-	if !strings.HasPrefix(c.Src, "---") {
-		got2, err := renderVuegoLoad(src)
+	if !bytes.HasPrefix(src, []byte("---")) {
+		got2, err := renderVuegoLoadFiles(src, files)
 		if err != nil {
-			return fmt.Errorf("rendering failed: Load+Render returned %v%s", err, describe(c.Src, ref, got2))
+			return fmt.Errorf("rendering failed: Load+Render returned %v%s", err, describe(shown, ref, got2))
 		}
 		if got2 != got {
 			if d, _ := compare(ref, got2, t); d != "" {
-				return fmt.Errorf("via Load+Render: %s%s", d, describe(c.Src, ref, got2))
+				return fmt.Errorf("via Load+Render: %s%s", d, describe(shown, ref, got2))
 			}
 		}
 	}
 	return nil
+}
+
+// ---- content filesystem dimension: configuration data ---------------------------------------
+
+// configKeys are names the default templates use as variables; docs/data-loading.md: theme.yml and
+// data/*.yml of the filesystem are loaded as template data, and data passed to Fill overrides them.
+// The markdown package passes every variable of a template, so such files must not change a rendering.
+var configKeys = map[string][]string{
+	"title": {"My Blog", "\"false\"", "T <b>"}, "language": {"en", "go"}, "alt": {"ALT"}, "href": {"/cfg"}, "src": {"/cfg.png"},
+	"content": {"CONFIG", "\"<b>CONFIG</b>\""}, "level": {"3", "1"}, "id": {"cfg"}, "start": {"9", "0"}, "ordered": {"true", "false"},
+	"checked": {"true", "false"}, "align": {"right"}, "label": {"LABEL"}, "code": {"CODE"}, "cell": {"z", "{align: left, content: C}"},
+	"row": {"r", "[]"}, "headers": {"[x]", "[{align: right, content: H}]"}, "rows": {"[[y]]"}, "html": {"\"<i>h</i>\""}, "text": {"TXT"},
+}
+
+func genConfig(t *rapid.T) map[string]string {
+	mode := rapid.IntRange(0, 7).Draw(t, "config")
+	if mode <= 3 {
+		return nil // no content filesystem / only the templates
+	}
+	if mode == 4 {
+		return map[string]string{"unrelated.txt": "x"}
+	}
+	names := make([]string, 0, len(configKeys))
+	for k := range configKeys {
+		names = append(names, k)
+	}
+	sort.Strings(names)
+	yml := func(label string) string {
+		var sb strings.Builder
+		for _, k := range names {
+			if rapid.IntRange(0, 2).Draw(t, label+k) == 0 {
+				continue
+			}
+			sb.WriteString(k + ": " + rapid.SampledFrom(configKeys[k]).Draw(t, label+k+"v") + "\n")
+		}
+		return sb.String()
+	}
+	files := map[string]string{}
+	if mode == 5 || mode == 7 {
+		files["theme.yml"] = yml("t")
+	}
+	if mode == 6 || mode == 7 {
+		files["data/site.yml"] = yml("s")
+		if rapid.IntRange(0, 2).Draw(t, "second") == 0 {
+			files["data/zz.yaml"] = yml("z")
+		}
+	}
+	return files
+}
+
+func configClasses(c Case) []string {
+	switch {
+	case c.Files == nil:
+		return []string{"config:none"}
+	}
+	var cls []string
+	collide := false
+	for k, v := range c.Files {
+		switch {
+		case k == "theme.yml":
+			cls = append(cls, "config:theme.yml")
+		case strings.HasPrefix(k, "data/"):
+			cls = append(cls, "config:data/*.yml")
+		default:
+			continue
+		}
+		if strings.TrimSpace(v) != "" {
+			collide = true
+		}
+	}
+	sort.Strings(cls)
+	if len(cls) == 0 {
+		cls = []string{"config:unrelated-files-only"}
+	}
+	if collide {
+		cls = append(cls, "config-defines-template-variable-names")
+	}
+	return dedup(cls)
+}
+
+func dedup(l []string) []string {
+	var out []string
+	for i, s := range l {
+		if i == 0 || s != l[i-1] {
+			out = append(out, s)
+		}
+	}
+	return out
 }
 
 // ---- kind "override" -----------------------------------------------------------------------
@@ -243,6 +368,11 @@ func checkOverride(c Case, st *stats) error {
 	}
 	if strings.TrimSpace(c.Blank) != "" {
 		return nil // Blank must be empty or white space (hand-edited replay)
+	}
+	for k, v := range c.Files {
+		if !strings.HasPrefix(k, "markdown/") {
+			files[k] = v // configuration data next to the templates
+		}
 	}
 	for _, name := range c.Empty {
 		if _, ok := replacement[name]; !ok || set[name] {
@@ -487,13 +617,17 @@ func checkBytes(c Case) error {
 // ---- classification ------------------------------------------------------------------------
 
 func classifyDoc(c Case) (bool, []string) {
-	fa := analyse([]byte(c.Src))
+	fa := analyse(c.source())
 	var cls []string
 	for k := range fa.classes {
 		cls = append(cls, k)
 	}
 	sort.Strings(cls)
-	switch n := strings.Count(c.Src, "\n") + 1; {
+	cls = append(cls, configClasses(c)...)
+	if c.Raw != nil {
+		cls = append(cls, "doc-invalid-utf8")
+	}
+	switch n := bytes.Count(c.source(), []byte("\n")) + 1; {
 	case n <= 5:
 		cls = append(cls, "lines:1-5")
 	case n <= 15:
@@ -541,6 +675,7 @@ func classifyOverride(c Case) (bool, []string) {
 			cls = append(cls, "override-hit:"+n)
 		}
 	}
+	cls = append(cls, configClasses(c)...)
 	if c.Store != "" {
 		cls = append(cls, "override-store:"+c.Store)
 	} else {
@@ -851,7 +986,16 @@ func TestProp(t *testing.T) {
 
 	// (2) generated documents against the reference
 	run.Rapid(t, rec, "doc", func(t *rapid.T) Case {
-		return Case{Src: newGen(t, rec).document()}
+		g := newGen(t, rec)
+		g.binary = true
+		src := g.document()
+		c := Case{Files: genConfig(t)}
+		if utf8.ValidString(src) {
+			c.Src = src
+		} else {
+			c.Raw = []byte(src)
+		}
+		return c
 	}, classifyDoc, func(c Case) error { return checkDoc(c, st) })
 
 	// (3) generated documents x random subsets of overridden templates
@@ -883,7 +1027,7 @@ func TestProp(t *testing.T) {
 		}
 		store := rapid.SampledFrom(stores).Draw(t, "store")
 		late := rapid.IntRange(0, 2).Draw(t, "late") == 2
-		return Case{Src: src, Override: s, Empty: e, Blank: blank, Store: store, Late: late}
+		return Case{Src: src, Override: s, Empty: e, Blank: blank, Store: store, Late: late, Files: genConfig(t)}
 	}, classifyOverride, func(c Case) error { return checkOverride(c, st) })
 
 	// (4) histories: several documents on one Markdown instance, sharing link reference labels
